@@ -27,9 +27,12 @@ class Report:
         self.notes = []
         self.coverage = {}
         self.samples = []
+        self.replay_mode = False
         self.t0 = time.time()
 
     def violation(self, what, payload, no_input=False):
+        if self.replay_mode and payload.get("kind") == "coverage":
+            return
         self.violations.append({"what": what, "payload": payload, "no_input": no_input})
 
     def known_hit(self, cls, what):
@@ -71,7 +74,19 @@ def finish(rep, assumptions):
             print("KNOWN-FINDING: property=%s %s [%s, %d case(s) this run]" % (rep.pid, e["what"], cls, e["count"]))
         else:
             out_viol.append({"what": "unlisted finding class %s: %s" % (cls, e["what"]), "payload": e, "no_input": False})
-    out_viol += rep.violations
+    # minimise: one behavioural violation per declaration, the one with the shortest input first
+    best = {}
+    rest = []
+    for v in rep.violations:
+        pl = v["payload"]
+        if pl.get("kind") == "behavioural" and "decl_id" in pl:
+            key = (pl["decl_id"], pl.get("op"))
+            if key not in best or len(str(pl.get("arg"))) < len(str(best[key]["payload"].get("arg"))):
+                best[key] = v
+        else:
+            rest.append(v)
+    rep.coverage["violating_cases"] = len(rep.violations)
+    out_viol += sorted(best.values(), key=lambda v: (v["no_input"], len(str(v["payload"].get("arg"))))) + rest
     if rep.proof_broken and not out_viol:
         out_viol.append({"what": rep.proof_broken, "payload": {"kind": "proof-obligation", "detail": rep.proof_broken,
                                                                "theorem_files": rep.coverage.get("checker_cmd")},
@@ -209,10 +224,212 @@ def c01(tier, rng, rep, only=None):
                 rep.violation("self-check: no %s/%s outcome was exercised" % (fam, kind), {"kind": "coverage"}, no_input=True)
 
 
+# ------------------------------------------------------------------------------------- C07
+
+def c07(tier, rng, rep, only=None):
+    decls = only if only is not None else (guardcorpus.build_corpus(rng, tier) + corpus.gen_perm_decls(rng.fork("perm"), tier))
+    if only is None:
+        # the perm declarations live in their own workspace so that the shared guard build is reused
+        g1 = make_guard_run(tier, rng, decls=[d for d in decls if "perm" not in d.tags])
+        g2 = make_guard_run(tier, rng, decls=[d for d in decls if "perm" in d.tags], wsname="perm")
+        runs = [g1, g2]
+    else:
+        runs = [make_guard_run(tier, rng, decls=decls, wsname="replay")]
+    n_cases = n_err = n_multi = 0
+    per_variant = {}
+    for g in runs:
+        dropped = run_guard(g, rep, rng)
+        for did, msgs in dropped.items():
+            mv = g.model_verdict.get(did, "")
+            if not mv.startswith("reject"):
+                # the wildcard-free match over the declared variants did not compile (or the
+                # declaration itself was refused): the variant list may have changed
+                txt = " | ".join(msgs)[:300]
+                if "variant" in txt or "pattern" in txt or "E0004" in txt or "E0599" in txt or "non-exhaustive" in txt:
+                    d = [x for x in g.decls if x.id == did][0]
+                    rep.violation("generated error enum of %s does not have exactly the declared variants: %s" % (did, txt),
+                                  {"kind": "variants", "decl": d.to_json(), "decl_rust": runner.decl_module(d, None).split("pub fn run")[0], "rustc": msgs[:3]})
+                else:
+                    rep.notes.append("declaration %s unexpectedly rejected: %s" % (did, txt))
+        for c in g.cases:
+            if c.decl.id not in g.live or c.impl is None:
+                continue
+            n_cases += 1
+            spec_o, _, cmpok = (c.spec or "").rpartition(" ")
+            if not (c.impl.startswith("err") or c.impl.startswith("errc")):
+                continue
+            n_err += 1
+            per_variant[c.impl] = per_variant.get(c.impl, 0) + 1
+            if c.impl != spec_o:
+                if cmpok == "0" and c.decl.family() == "float":
+                    rep.known_hit("float_nan_passes_bounds",
+                                  "a NaN violates a bound's meaning but no bound check fires, so a later variant (or none) is reported")
+                else:
+                    rep.violation("%s(%s) reported %s but the first violated rule in written order is %s"
+                                  % (c.op, c.arg, c.impl, spec_o), case_payload(c, g))
+            elif c.impl != c.model:
+                rep.violation("model and implementation differ on %s(%s): impl %s, model %s" % (c.op, c.arg, c.impl, c.model),
+                              case_payload(c, g), no_input=True)
+    rep.coverage.update({
+        "evaluations": n_cases, "distinct_nontrivial": n_err,
+        "rule": "guard corpus plus every permutation of the full built-in validator set per family (integers also with contradictory constant bounds); non-trivial = the constructor rejected; the reported variant is compared with the first violated validator of the L3 specification; the variant list is pinned by a wildcard-free match compiled per declaration",
+        "rejections_by_variant": per_variant, "exhaustive": False,
+    })
+    for g in runs:
+        for c in [c for c in g.cases if c.impl and c.impl.startswith("err")][:3]:
+            rep.samples.append({"decl": c.decl.id, "op": c.op, "arg": c.arg, "impl": c.impl, "spec": c.spec})
+    if n_err == 0:
+        rep.violation("self-check: no rejection was exercised", {"kind": "coverage"}, no_input=True)
+
+
+# ------------------------------------------------------------------------------------- C03
+
+def c03(tier, rng, rep, only=None):
+    def ops_for(g, d, r):
+        info = runner.DeclInfo(d)
+        ins = guardcorpus.inputs_for(d, r, tier)
+        if d.family() == "int" and len(ins) > 64:
+            ins = ins[:: max(1, len(ins) // 64)]
+        if d.family() == "str" and len(ins) > 80:
+            ins = ins[:: max(1, len(ins) // 80)]
+        ctor = guardcorpus.ctor_op(d)
+        ops = []
+        for v in ins:
+            a = val_sexp(v)
+            ops.append((ctor, a))
+            if "TryFrom" in info.traits:
+                ops.append(("try_from", a))
+                if d.inner == "String":
+                    ops.append(("try_from_ref", a))
+            if "From" in info.traits:
+                ops.append(("from", a))
+                if d.inner == "String":
+                    ops.append(("from_ref", a))
+            if "FromStr" in info.traits and d.inner == "String":
+                ops.append(("from_str_s", a))
+        if getattr(d, "default_arg", None) is not None and "Default" in info.traits:
+            ops.append((ctor, val_sexp(d.default_arg)))
+            ops.append(("default", ""))
+        g.add_ops(d, ops)
+    g = make_guard_run(tier, rng, decls=only, ops_for=ops_for, spec=False)
+    run_guard(g, rep, rng)
+    n = nconv = 0
+    kinds = {}
+    for d in g.decls:
+        if d.id not in g.live:
+            continue
+        last_ctor = None
+        for c in g.by_decl.get(d.id, []):
+            if c.impl is None:
+                continue
+            n += 1
+            if c.op in ("try_new", "new"):
+                last_ctor = c
+                if c.impl != c.model:
+                    rep.notes.append("constructor differs from model on %s %s (C01's concern)" % (d.id, c.arg))
+                continue
+            nconv += 1
+            kinds[c.op] = kinds.get(c.op, 0) + 1
+            if c.op == "default":
+                exp = last_ctor.impl if last_ctor.impl.startswith("ok") else "panic"
+            else:
+                exp = last_ctor.impl
+            if c.impl != exp:
+                rep.violation("%s(%s) returned %s but the constructor returns %s for the same input"
+                              % (c.op, last_ctor.arg, c.impl, last_ctor.impl), case_payload(c, g, {"constructor": last_ctor.impl}))
+            elif c.impl != c.model:
+                rep.violation("model and implementation differ on %s(%s): impl %s, model %s" % (c.op, c.arg, c.impl, c.model),
+                              case_payload(c, g), no_input=True)
+    rep.coverage.update({"evaluations": n, "distinct_nontrivial": nconv,
+                         "rule": "every derived conversion (TryFrom/From from the inner type and from &str, string FromStr, Default) is run next to the canonical constructor on the same input (inputs of the C01 domains, thinned) and must return the identical outcome, error variant included; Default is compared with the constructor applied to the declared default (panic when rejected)",
+                         "conversions_by_kind": kinds, "exhaustive": False})
+    for c in [c for c in g.cases if c.op not in ("try_new", "new")][:: max(1, nconv // 6)][:6]:
+        rep.samples.append({"decl": c.decl.id, "op": c.op, "arg": c.arg, "impl": c.impl})
+    for k in ("try_from", "from", "from_str_s", "default", "try_from_ref", "from_ref"):
+        if not kinds.get(k):
+            rep.violation("self-check: conversion %s was not exercised" % k, {"kind": "coverage"}, no_input=True)
+
+
+# ------------------------------------------------------------------------------------- C06
+
+def numeric_strings(d, rng):
+    from syntax import INT_TYPES, ity_min, ity_max, bits_to_frac
+    out = ["", " ", "abc", "+", "-", "--1", "1 ", " 1", "+5", "-0", "007", "0x10", "1_000", "1e3", "NaN", "nan",
+           "inf", "-inf", "infinity", "+inf", "1e400", "-1e400", "1e-400", "0.1", ".5", "5.", "1.0", "-1.5",
+           "١٢", "5\u00a0".encode().decode("unicode_escape"), "99999999999999999999999999999999999999999", "-99999999999999999999999999999999999999999",
+           "340282366920938463463374607431768211455", "340282366920938463463374607431768211456",
+           "-170141183460469231731687303715884105728", "-170141183460469231731687303715884105729", "3.4028235e38", "3.4028236e38",
+           "1.7976931348623157e308", "1.7976931348623159e308", "4.9e-324", "2e-324", "7", "7.0", "100", "101", "-0.0"]
+    if d.inner in INT_TYPES:
+        lo, hi = ity_min(d.inner), ity_max(d.inner)
+        for b in list(getattr(d, "bounds", [])) + [lo, hi, 0]:
+            for dl in (-1, 0, 1):
+                out.append(str(b + dl))
+        out += [str(lo - 1), str(hi + 1)]
+        for _ in range(6):
+            out.append(str(rng.range(lo, hi)))
+    else:
+        is64 = FLOAT_TYPES[d.inner]
+        for b in getattr(d, "bounds", []):
+            fr = bits_to_frac(b, is64)
+            if fr is not None:
+                out.append(repr(float(fr)))
+                out.append(repr(float(fr) + 0.5))
+        for _ in range(6):
+            out.append("%d.%d" % (rng.range(-200, 200), rng.below(1000)))
+    for _ in range(4):
+        out.append("".join(chr(rng.choice([48, 49, 57, 45, 46, 101, 32, 0x663, 0xff11, 0x7f])) for _ in range(rng.range(1, 6))))
+    return out
+
+
+def c06(tier, rng, rep, only=None):
+    def ops_for(g, d, r):
+        info = runner.DeclInfo(d)
+        if d.family() not in ("int", "float") or "FromStr" not in info.traits:
+            return
+        g.add_ops(d, [("from_str", val_sexp(("s", s))) for s in numeric_strings(d, r)])
+    g = make_guard_run(tier, rng, decls=only, ops_for=ops_for, spec=False)
+    run_guard(g, rep, rng)
+    n = 0
+    cls = {}
+    for c in g.cases:
+        if c.decl.id not in g.live or c.impl is None:
+            continue
+        n += 1
+        ctor = c.extra[0] if c.extra else None
+        if c.impl == "panic":
+            rep.violation("from_str(%s) panicked" % c.arg, case_payload(c, g))
+            continue
+        exp = "parse_err" if c.oracle == "none" else ctor
+        k = "parse_err" if c.impl == "parse_err" else ("ok" if c.impl.startswith("ok") else "validate_err")
+        cls[(c.decl.family(), k)] = cls.get((c.decl.family(), k), 0) + 1
+        if c.impl != exp:
+            rep.violation("from_str(%s) returned %s; inner parse gives %s and the constructor gives %s"
+                          % (c.arg, c.impl, c.oracle, ctor), case_payload(c, g, {"inner_parse": c.oracle, "constructor": ctor}))
+        elif c.impl != c.model:
+            rep.violation("model and implementation differ on from_str(%s): impl %s, model %s" % (c.arg, c.impl, c.model),
+                          case_payload(c, g), no_input=True)
+    rep.coverage.update({"evaluations": n, "distinct_nontrivial": sum(v for (f, k), v in cls.items() if k != "ok"),
+                         "rule": "integer and float declarations deriving FromStr; strings = decimal renderings of every bound and extreme +-1, overflowing digit strings, signs, whitespace, NaN/inf/-0/1e400, empty, non-numeric, non-ASCII digits, random; the real from_str is compared with <Inner as FromStr>::from_str followed by the real constructor (computed in the same process) and with the model fed the real inner-parse result",
+                         "outcome_classes": {"%s/%s" % k: v for k, v in sorted(cls.items())}, "exhaustive": False})
+    for c in g.cases[:: max(1, len(g.cases) // 6)][:6]:
+        rep.samples.append({"decl": c.decl.id, "inner": c.decl.inner, "arg": c.arg, "impl": c.impl, "inner_parse": c.oracle})
+    for fam in ("int", "float"):
+        for k in ("parse_err", "ok", "validate_err"):
+            if not cls.get((fam, k)):
+                rep.violation("self-check: no %s/%s outcome" % (fam, k), {"kind": "coverage"}, no_input=True)
+
+
 PROPS = {
     "C01": (["Props/C01.v"], c01, ["bound expressions evaluate without overflow (corpus keeps them in range)",
                                    "user closures are total functions (library of harness/rtgen.py)",
                                    "String sanitizers checked on the ASCII alphabet until Unicode tables are wired"]),
+    "C07": (["Props/C07.v"], c07, ["float comparisons with NaN operands are outside C07_first (hypothesis `comparable`), recorded as a known finding",
+                                   "variant names are read through a wildcard-free match generated per declaration"]),
+    "C03": (["Props/C03.v"], c03, ["conversions are compared on thinned C01 input domains",
+                                   "Default is observed under catch_unwind"]),
+    "C06": (["Props/C06.v"], c06, ["the inner type's FromStr is an oracle (its real result is given to the model)",
+                                   "`Any`/generic inner types with FromStr are not in the corpus yet"]),
 }
 
 
@@ -222,6 +439,7 @@ def run_property(pid, tier, replay=None):
         return 2
     files, fn, assumptions = PROPS[pid]
     rep = Report(pid, tier)
+    rep.replay_mode = replay is not None
     rng = Rng(seed()).fork(pid)
     proof_stage(rep, files)
     only = None
